@@ -209,6 +209,23 @@ def gen_codec(rng, tier):
         full = pre + s + rng.choice([b"", b"\0", b"\0" * 20])
         ops = ["fpos %s %d %d" % (tok(full), len(pre), k) for k in range(0, len(lens) + 2)]
         cases.append(Case("fpos-%d" % i, ops, True, "random"))
+    # --- FileMessageReader::read_next to the end of the stream: the catalogue (8 header bytes + one small message),
+    # snapshot and transfer files; short records right at the end of the file, with and without an end mark
+    for i in range(300 if big else 60):
+        lens = gen_lens(rng, 8)
+        if rng.random() < 0.6:
+            lens = lens + [rng.choice([1, 1, 2, 3, 5, 7, 8, 9])] * rng.randrange(1, 3)
+        s, bounds = stream_of(rng, lens)
+        pre = bytes(rng.randrange(256) for _ in range(rng.choice([0, 0, 8, 8, rng.randrange(0, 20)])))
+        full = pre + s + rng.choice([b"", b"", b"\0", b"\0" * 3, b"\0" * 20])
+        ops = ["fnext %s %d %d" % (tok(full), len(pre), k) for k in (len(lens) + 2, max(1, len(lens) // 2))]
+        cases.append(Case("fnext-%d" % i, ops, True, "random"))
+    for pre_n in (0, 8):
+        for blen in (1, 2, 5, 8, 9, 10, 11):
+            for tail in (b"", b"\0", b"\0" * 12):
+                s, _ = stream_of(rng, [blen])
+                full = bytes(range(200, 200 + pre_n)) + s + tail
+                cases.append(Case("fnext-one-%d-%d-%d" % (pre_n, blen, len(tail)), ["fnext %s %d 3" % (tok(full), pre_n)], True, "boundary"))
     return cases
 
 
@@ -241,7 +258,9 @@ class C20(Prop):
         "varints: every 2^k-1,2^k,2^k+1 (k<=64) + random u64; streams: record-length sequences from a boundary pool "
         "(1,127/128,1023..1026,16383/16384,>3*1024) with sums steered onto 1024*m+{-1,0,1}, five chunkings each "
         "(1024 fixed, on record boundaries, inside the varint, random, byte-by-byte); real-file scans through "
-        "LogInnerManager::init; FileMessageReader positions; separate malformed stream (M* cases, correspondence only). "
+        "LogInnerManager::init; FileMessageReader positions (read_index_position) and record-by-record reads (read_next "
+        "until it fails: streams behind 0/8 header bytes, short records right at the end of the file, with and without "
+        "an end mark); separate malformed stream (M* cases, correspondence only). "
         "non-trivial = >=2 ops or a stream op of >40 chars; distinct = sha1 of the op list"), search=search_codec)]
     trusted_base = [
         "model of MessageBufReader/varint functions is hand-written (RNacos/Model/{Varint,BufReader,FileReader}.lean)",
